@@ -510,3 +510,13 @@ func init() {
 		},
 	})
 }
+
+func init() {
+	replayDrivers = append(replayDrivers, replayDriver{
+		match: func(n string) bool { return strings.Contains(n, "C16.u2f-challenge-taken-before-verification") },
+		run: func(r *Report, o *Obligation, sr *SolveResult) ReplayResult {
+			out, conf := goReplay(r, "cmd/keymasterd", "keymasterd_u2f_replay_test.go", "TestVerifReplayU2FSimultaneousPresentation", map[string]string{})
+			return ReplayResult{Confirmed: conf, Summary: replaySummary(out), Output: truncate(out, 4000), Driver: "TestVerifReplayU2FSimultaneousPresentation (schedule of the model: a second presentation reads the challenge before the first one has removed it; 8 simultaneous presentations, repeated rounds)"}
+		},
+	})
+}
